@@ -18,6 +18,7 @@ import (
 	"os"
 	"os/exec"
 	"strings"
+	"time"
 
 	"github.com/linuxboot/fiano/pkg/compression"
 	"github.com/linuxboot/fiano/pkg/guid"
@@ -600,6 +601,19 @@ func gen(r *Rng, tier string, emit Emit) {
 	for _, c := range [][2]string{{"f", "fffffe"}, {"f", "ffffff"}, {"f", "1000000"}, {"n", "1000010"}, {"ab", "1000010"}} {
 		emit("P", "p_big", c[0], c[1])
 	}
+	// a compressed (ZLIB) section around 16 MiB of noise whose size 24 + encoded payload is just below,
+	// exactly at, just above 0xFFFFFF: from there on GenSecHeader needs the 8-byte common header and
+	// DataOffset 28
+	zs := []string{"fffffe", "ffffff", "1000003"}
+	if tier == "thorough" {
+		zs = append(zs, "fffff0", "1000000", "1000004", "1001000")
+	}
+	for _, z := range zs {
+		emit("P", "p_big", "z", z, N(r.U64()%1000+1))
+	}
+	if tier == "thorough" {
+		emit("P", "p_big", "l", "ffffff", N(r.U64()%1000+1)) // one LZMA case (tens of seconds)
+	}
 	for it := 0; it < n; it++ {
 		rr := r.Fork(uint64(it))
 		// "x": system xz encodes on save (the default when xz is installed); "g": the pure-Go LZMA
@@ -661,6 +675,7 @@ func gen(r *Rng, tier string, emit Emit) {
 }
 
 func main() {
+	CaseTimeout = 180 * time.Second // the 16 MiB LZMA case of the thorough tier needs tens of seconds
 	uefiops.RegisterAll()
 	Register("save_x", saveCfg("x"))
 	Register("save_g", saveCfg("g"))
